@@ -63,6 +63,72 @@ def _hexchar(zv):
     return zv + z3.If(zv >= 10, z3.IntVal(87), z3.IntVal(48))
 
 
+def _hexchar_up(zv):
+    return zv + z3.If(zv >= 10, z3.IntVal(55), z3.IntVal(48))
+
+
+# Remember which z3 terms are "hex character of nibble n" so that upper() and the hex decoders can use the
+# identities upper(hexchar(n)) == HEXCHAR(n) and hexval(hexchar(n)) == n (0 <= n <= 15; checked exhaustively in
+# validate_models) instead of leaving nested If-terms to the solver.
+_HEXTERM = {"space": None, "memo": {}}
+
+
+def _remember_hexchar(space, term, nib, upper):
+    if _HEXTERM["space"] is not space:
+        _HEXTERM["space"] = space
+        _HEXTERM["memo"] = {}
+    _HEXTERM["memo"][term.get_id()] = (term, nib, upper)
+
+
+def _lookup_hexchar(space, term):
+    if _HEXTERM["space"] is not space:
+        return None
+    hit = _HEXTERM["memo"].get(term.get_id())
+    if hit is not None and z3.eq(hit[0], term):
+        return hit
+    return None
+
+
+def hexchar_sym(space, nib, upper=False):
+    t = _hexchar_up(nib) if upper else _hexchar(nib)
+    _remember_hexchar(space, t, nib, upper)
+    return SymbolicInt(t)
+
+
+_orig_swap = _bl.BytesLike._ch_swap_ascii_case
+
+
+def _swap_ascii_case(self, byte, do_lower, do_upper):
+    if do_upper and not do_lower:
+        with NoTracing():
+            if isinstance(byte, SymbolicInt):
+                space = context_statespace()
+                hit = _lookup_hexchar(space, byte.var)
+                if hit is not None:
+                    return byte if hit[2] else hexchar_sym(space, hit[1], True)
+    return _orig_swap(self, byte, do_lower, do_upper)
+
+
+_NIB = {"space": None, "memo": {}}
+
+
+def nibbles(space, ze):
+    """fresh Int variables (hi, lo) with ze == 16*hi + lo, 0 <= hi, lo <= 15 (unique for a byte); memoised per path.
+    Avoids div/mod terms in the hex codecs."""
+    if _NIB["space"] is not space:
+        _NIB["space"] = space
+        _NIB["memo"] = {}
+    memo = _NIB["memo"]
+    hit = memo.get(ze.get_id())
+    if hit is not None and z3.eq(hit[0], ze):
+        return hit[1], hit[2]
+    n = len(memo)
+    hi, lo = z3.Int("nibhi_%d" % n), z3.Int("niblo_%d" % n)
+    space.add(z3.And(hi >= 0, hi <= 15, lo >= 0, lo <= 15, ze == 16 * hi + lo))
+    memo[ze.get_id()] = (ze, hi, lo)
+    return hi, lo
+
+
 def _b2a_hex(data, *a, **kw):
     if a or kw:
         return binascii.b2a_hex(deep_realize(data), *a, **kw)
@@ -71,10 +137,14 @@ def _b2a_hex(data, *a, **kw):
         if not any(_is_sym(e) for e in elems):
             return binascii.b2a_hex(bytes(elems))
         out = []
+        space = context_statespace()
         for e in elems:
-            ze = _z(e)
-            out.append(SymbolicInt(_hexchar(ze / 16)))
-            out.append(SymbolicInt(_hexchar(ze % 16)))
+            if _is_sym(e):
+                hi, lo = nibbles(space, _z(e))
+                out.append(hexchar_sym(space, hi))
+                out.append(hexchar_sym(space, lo))
+            else:
+                out.extend(binascii.b2a_hex(bytes([e])))
         return SymbolicBytes(out)
 
 
@@ -96,11 +166,14 @@ def _a2b_hex(data):
         if len(elems) % 2:
             raise binascii.Error("Odd-length string")
         zs = [_z(e) for e in elems]
-        allhex = z3.And(*[_ishex(c) for c in zs]) if zs else z3.BoolVal(True)
         space = context_statespace()
-        if not space.smt_fork(allhex, probability_true=0.9):
+        hits = [_lookup_hexchar(space, c) for c in zs]
+        unknown = [c for c, h in zip(zs, hits) if h is None]
+        allhex = z3.And(*[_ishex(c) for c in unknown]) if unknown else z3.BoolVal(True)
+        if unknown and not space.smt_fork(allhex, probability_true=0.9):
             raise binascii.Error("Non-hexadecimal digit found")
-        out = [SymbolicInt(_hexval(zs[i]) * 16 + _hexval(zs[i + 1])) for i in range(0, len(zs), 2)]
+        vals = [h[1] if h is not None else _hexval(c) for c, h in zip(zs, hits)]
+        out = [SymbolicInt(vals[i] * 16 + vals[i + 1]) for i in range(0, len(vals), 2)]
         return SymbolicBytes(out)
 
 
@@ -122,6 +195,12 @@ def _int(*a, **kw):
                     if any(_is_sym(e) for e in elems):
                         zs = [_z(e) for e in elems]
                         space = context_statespace()
+                        hits = [_lookup_hexchar(space, c) for c in zs]
+                        if all(h is not None for h in hits):
+                            v = z3.IntVal(0)
+                            for h in hits:
+                                v = v * 16 + h[1]
+                            return SymbolicInt(v)
                         allhex = z3.And(*[_ishex(c) for c in zs])
                         if space.smt_fork(allhex, probability_true=0.9):
                             v = z3.IntVal(0)
@@ -182,6 +261,31 @@ def _step_fn():
     if _STEP is None:
         _STEP = z3.Function("crc_stepU", z3.IntSort(), z3.IntSort(), z3.IntSort())
     return _STEP
+
+
+def crc_fold(data):
+    """un-swapped CRC register after folding the uninterpreted step over data (harness-side reference)"""
+    elems = _elements(data)
+    with NoTracing():
+        if not any(_is_sym(e) for e in elems):
+            from spec.checksums import crc16_modbus
+            return crc16_modbus(bytes(elems))
+        space = context_statespace()
+        f = _step_fn()
+        st = z3.IntVal(0xFFFF)
+        for e in elems:
+            st = f(st, _z(e))
+            space.add(z3.And(st >= 0, st <= 65535))
+        return SymbolicInt(st)
+
+
+def hex2_upper(v):
+    with NoTracing():
+        if not _is_sym(v):
+            return b"%02X" % v
+        space = context_statespace()
+        hi, lo = nibbles(space, _z(v))
+        return SymbolicBytes([hexchar_sym(space, hi, True), hexchar_sym(space, lo, True)])
 
 
 def _make_crc_contract(real):
@@ -299,6 +403,8 @@ def install(INSTALLED, contracts=()):
     _PATCH_REGISTRATIONS[binascii.unhexlify] = _a2b_hex
     INSTALLED["models"].append("binascii.b2a_hex/hexlify, a2b_hex/unhexlify: per-nibble z3 If encodings (one fork on 'all digits valid')")
     _PATCH_REGISTRATIONS[int] = _int
+    _bl.BytesLike._ch_swap_ascii_case = _swap_ascii_case
+    INSTALLED["models"].append("hex characters produced by the hex models are remembered per path: upper(hexchar(n)) = HEXCHAR(n), hexval(hexchar(n)) = n (identities checked exhaustively for n in 0..15)")
     INSTALLED["models"].append("int(<=2 symbolic bytes, 16): exact for hex digits and for bytes int() rejects; whitespace/sign/underscore region concretised and evaluated by the real int()")
     import struct
     _PATCH_REGISTRATIONS[struct.Struct.pack] = _struct_pack_method
@@ -333,6 +439,12 @@ def validate_models(seed=0):
         got = z3.simplify(z3.substitute(hc, (x, z3.IntVal(v)))).as_long()
         if got != ord("%x" % v):
             bad.append(("hexchar", v, got))
+    for v in range(16):
+        n += 1
+        lo_c = z3.simplify(z3.substitute(_hexchar(x), (x, z3.IntVal(v)))).as_long()
+        up_c = z3.simplify(z3.substitute(_hexchar_up(x), (x, z3.IntVal(v)))).as_long()
+        if bytes([lo_c]).upper() != bytes([up_c]) or int(bytes([lo_c]), 16) != v or int(bytes([up_c]), 16) != v:
+            bad.append(("hexchar identities", v, lo_c, up_c))
     hv, ih = _hexval(x), _ishex(x)
     for c in range(256):
         n += 1
